@@ -119,6 +119,14 @@ Inductive rpcall := RAuthURL | RCodeExchange | RUserinfo | RRefresh | REndSessio
                   | RClientCredentials | RDeviceAuthz | RGetters | RVerify.
 (* handler values the library hands out; r below is the request (its per-request data) *)
 Inductive hkind := HCodeExchange | HAuthURL | HRefresh | HOPAuthorize.
+(* what a request of an identified client asks the provider to do (token endpoint grants, introspection,
+   revocation, device authorization); the credential it carries is the client's registered one:
+   client secret (basic / post) or a signed JWT assertion (private_key_jwt, jwt-bearer) *)
+Inductive ckind := KClientCredentials | KCode | KBearer | KIntrospect | KRevoke | KRefresh | KDevice
+                 | KIntrospectOther   (* introspection of a token that was issued to ANOTHER client (not in its audience): never active *)
+                 | KUserinfo.         (* userinfo with the access token the client obtained for ITS user *)
+Definition reads_only (k : ckind) : bool :=
+  match k with KIntrospect | KIntrospectOther | KUserinfo => true | _ => false end.
 Inductive ccall := CDiscover | CToken | CRevoke | CEndSession | CTokenExchange | CDeviceAuthz | CDeviceToken.
 
 Inductive op :=
@@ -139,6 +147,16 @@ Inductive op :=
 | KSVerify (i c : nat)                             (* remoteKeySet.VerifySignature *)
 | ClientCall (c : nat) (k : ccall)                 (* client.Discover / client.Call*Endpoint with a caller holding client c *)
 | FindKey (sl : nat)                               (* oidc.FindMatchingKey / FindKey(kid, use, alg, keys(sl)...): a pure function of a caller-owned slice passed variadically *)
+| HelperCall (f a : nat)                            (* a package-level helper: crypto.GetHashAlgorithm + HashString, oidc.ClaimHash (at_hash / c_hash),
+                                                      crypto.EncryptAES / DecryptAES, oidc.NewSHACodeChallenge - function f on argument class a
+                                                      (the signing-algorithm family that selects the digest).  A pure function: every call
+                                                      works on state it allocates itself; nothing is kept between calls *)
+| ClientReq (i stor cl : nat) (k : ckind) (own : bool)
+                                                   (* a request of CLIENT cl (one of any number of clients registered with the
+                                                      storage) served by provider / legacy server i.  own = the credential it
+                                                      presents is cl's own and complete (ground truth of the request itself).
+                                                      Whom the provider authenticates is decided from the request and the
+                                                      storage's registrations alone: no row writes anything but storage contents *)
 | HandlerReq (i c : nat) (k : hkind) (r : nat).    (* request r served by a handler value of instance i: rp.CodeExchangeHandler /
                                                       AuthURLHandler callback, an rp.RefreshTokens call, a provider authorize request.
                                                       Its per-request data (code verifier, state, token) lives in the request, never in the
@@ -155,7 +173,8 @@ Definition target (o : op) : nat :=
   | NewProvider i _ _ | NewLegacyServer i _ | NewRPOIDC i _ _ _ | NewRPOAuth i _ _
   | NewRS i _ _ _ | NewTE i _ _ _ | NewKeySet i _ _ => i
   | ProvReq i _ _ | RPCall i _ _ | RSIntrospect i _ | TEExchange i _ | KSVerify i _ | HandlerReq i _ _ _ => i
-  | DevGetAudience _ | ClientCall _ _ | FindKey _ => 0
+  | ClientReq i _ _ _ _ => i
+  | DevGetAudience _ | ClientCall _ _ | FindKey _ | HelperCall _ _ => 0
   end.
 
 Definition inst (i : nat) (f : ifield) (s : src) := EWrite (LInst i f) s.
@@ -219,6 +238,8 @@ Definition effects (o : op) : list eff :=
       | QDiscovery | QKeys | QUserinfo | QIntrospect => []
       | _ => [EWrite (LLocked stor) (SConst 1)]
       end
+  | ClientReq _ stor _ k _ =>
+      if reads_only k then [] else [EWrite (LLocked stor) (SConst 1)]
   | DevGetAudience _ => []
   | RPCall i _ k =>
       match k with
@@ -228,7 +249,7 @@ Definition effects (o : op) : list eff :=
       end
   | RSIntrospect _ _ | TEExchange _ _ => []
   | KSVerify i _ => [EWrite (LLocked i) (SConst 1)]
-  | ClientCall _ _ | FindKey _ => []
+  | ClientCall _ _ | FindKey _ | HelperCall _ _ => []
   | HandlerReq i _ k _ => match k with HCodeExchange | HRefresh => [EWrite (LLocked i) (SConst 1)] | _ => [] end
   end.
 
@@ -244,6 +265,7 @@ Definition extra_reads (o : op) : list loc :=
   | NewProvider _ _ _ => [LArg 3]                                     (* the *op.Config (shared by the providers of a run) *)
   | NewLegacyServer _ _ => []
   | FindKey sl => [LSlice sl]
+  | HelperCall _ _ => []
   | NewRPOIDC _ _ _ opts => client_locs (rp_client opts 0)           (* client.Discover *)
   | NewRPOAuth _ _ _ => []
   | NewRS _ c static _ | NewTE _ c static _ => if static then [] else client_locs (ctor_client c)
@@ -255,6 +277,7 @@ Definition extra_reads (o : op) : list loc :=
       | QDeviceToken st => [LStor st]
       | _ => []
       end
+  | ClientReq i stor _ _ _ => LLocked stor :: inst_locs i
   | DevGetAudience st => [LStor st]
   | RPCall i c _ => LLocked i :: LG GEncoder :: inst_locs i ++ client_locs c
   | RSIntrospect i c | TEExchange i c => LG GEncoder :: inst_locs i ++ client_locs c
@@ -270,8 +293,8 @@ Definition apply (o : op) (h : heap) : heap := run (effects o) h.
 (* ids of the instances / storages an operation touches *)
 Definition tids (o : op) : list nat :=
   match o with
-  | ProvReq i stor _ => [i; stor]
-  | DevGetAudience _ | ClientCall _ _ | FindKey _ => []
+  | ProvReq i stor _ | ClientReq i stor _ _ _ => [i; stor]
+  | DevGetAudience _ | ClientCall _ _ | FindKey _ | HelperCall _ _ => []
   | _ => [target o]
   end.
 
@@ -290,6 +313,9 @@ Definition obs_reads (o : op) : list loc :=
 Definition const_result (o : op) : list val :=
   match o with
   | HandlerReq _ _ _ r => [S r]
+  | HelperCall _ _ => [1]             (* the value computed equals the value the standard library computes for the argument *)
+  | ClientReq _ _ cl k own =>        (* served AS client cl (for cl's user), or refused: never as anybody else *)
+      [match k with KIntrospectOther => 0 | _ => if own then S cl else 0 end]
   | ProvReq _ _ QUserinfo => [1]      (* a code flow followed by userinfo succeeds on a provider of the driver's configuration *)
   | _ => []
   end.
@@ -298,6 +324,10 @@ Definition obsval (l : loc) (v : val) : val :=
 Definition result (o : op) (h : heap) : list val := const_result o ++ map (fun l => obsval l (h l)) (obs_reads o).
 (* the locations an operation's writes and result really depend on (a subset of its reads) *)
 Definition deps (o : op) : list loc := flat_map eff_reads (effects o) ++ obs_reads o.
+
+(* requests served by a provider / legacy server (shared phase of a provider) *)
+Definition is_prov_request (o : op) : bool :=
+  match o with ProvReq _ _ _ | ClientReq _ _ _ _ _ => true | _ => false end.
 
 Definition run_ops (os : list op) (h : heap) : heap := fold_left (fun h o => apply o h) os h.
 
